@@ -301,6 +301,7 @@ class C22:
             "roots": ["root", "root2"] if two else ["root"],
             "root_shape": rng.weighted([("abs", 6), ("relative", 2), ("via_link", 2), ("cwd", 2)]),
             "cwd_form": rng.choice([".", "", "./"]),
+            "compose": rng.weighted([(None, 7), ("choice", 2), ("factory", 1)]),
             "pkg_paths": rng.choice([["templates"], ["templates", "more"], "templates"]),
             "ext": rng.weighted([(None, 3), (".liquid", 4), (".txt", 1)]),
             "reject_symlinks": rng.chance(0.5),
@@ -536,7 +537,19 @@ class C22:
             os.chdir(bases[0])
             given = [sc.get("cwd_form", ".")] + ["../" + r for r in sc["roots"][1:]]
         sp = given if len(given) > 1 else given[0]
-        if kind == "fs":
+        compose = sc.get("compose")
+        if compose == "choice":
+            # one file-system loader per search directory behind a (caching) choice loader: the
+            # same search order, the same containment rule per directory
+            import liquid
+            subs = [FileSystemLoader(g, ext=sc["ext"], reject_symlinks=sc["reject_symlinks"]) for g in given]
+            ld = liquid.ChoiceLoader(subs) if kind == "fs" else \
+                liquid.CachingChoiceLoader(subs, auto_reload=sc["auto_reload"], capacity=sc["capacity"])
+        elif compose == "factory" and not sc["reject_symlinks"]:
+            import liquid
+            ld = liquid.make_file_system_loader(sp, ext=sc["ext"], auto_reload=sc["auto_reload"],
+                                                cache_size=sc["capacity"] if kind == "cfs" else 0)
+        elif kind == "fs":
             ld = FileSystemLoader(sp, ext=sc["ext"], reject_symlinks=sc["reject_symlinks"])
         else:
             ld = CachingFileSystemLoader(sp, ext=sc["ext"], reject_symlinks=sc["reject_symlinks"],
@@ -830,6 +843,8 @@ class C22:
             yield {**sc, "absent": []}
         if len(sc["roots"]) > 1:
             yield {**sc, "roots": sc["roots"][:1]}
+        if sc.get("compose"):
+            yield {**sc, "compose": None}
         if sc["lat"]["zero_p"] != 1.0:
             yield {**sc, "lat": {**sc["lat"], "zero_p": 1.0}}
         for i, c in enumerate(cl):
